@@ -45,6 +45,25 @@ variable {K : Type} [Add K] [Mul K] [Neg K] [OfNat K 0] [OfNat K 1]
 def scatterAdd (base : Nat → K) (upds : List (Nat × K)) : Nat → K :=
   upds.foldl (fun acc u => upd acc u.1 (acc u.1 + u.2)) base
 
+/-- the same function, evaluated per cell (the closure chain of `scatterAdd` is re-evaluated by every later stage; compiled
+code uses this form, by the kernel-checked equation `scatterAdd_eq_fast`) -/
+def scatterAddFast (base : Nat → K) (upds : List (Nat × K)) : Nat → K :=
+  fun j => upds.foldl (fun a u => if j = u.1 then a + u.2 else a) (base j)
+
+@[csimp] theorem scatterAdd_eq_fast : @scatterAdd = @scatterAddFast := by
+  funext K _ base upds j
+  unfold scatterAdd scatterAddFast
+  induction upds generalizing base with
+  | nil => rfl
+  | cons u us ih =>
+    simp only [List.foldl_cons]
+    rw [ih]
+    congr 1
+    unfold upd
+    split
+    · next h => subst h; rfl
+    · rfl
+
 /-- `base.at[inds].set(vals)` (later entries win) -/
 def scatterSet (base : Nat → K) (upds : List (Nat × K)) : Nat → K :=
   upds.foldl (fun acc u => upd acc u.1 u.2) base
